@@ -1602,7 +1602,7 @@ def run(ctx):
     _Cap.reset()
     ctx.correspond("codec.prim.enc", ops, impl, oracle=oracle, neighbours=neighbours)
     ctx.correspond("codec.prim.dec", gen_dec_ops(ctx, nq), impl, oracle=None)
-    ns = ctx.scale(1500, 60_000)
+    ns = ctx.scale(1200, 60_000)
     ctx.correspond("codec.sessions", gen_session_ops(ctx, ns) + gen_rsession_ops(ctx, ns), impl_session, oracle=oracle_session,
                    neighbours=neighbours_session)
     if _Cap.suppressed:
